@@ -1,6 +1,8 @@
 """C11 — broker end offsets recorded are exactly what the brokers answered.
 Compares, per cycle: whether metadata was re-read, the fetchMetadata flag, the blocks of every broker's OffsetRequest,
-and the StorageSetBrokerOffset requests (implementation vs extracted ClusterMod.run)."""
+and the StorageSetBrokerOffset requests the storage side RECEIVED (implementation vs extracted ClusterMod.run / run_s),
+over kafka-versions 0.8 .. 3.6.0, with the storage side stalling (1 s timeout sends) in the sc2s scenarios and the real
+sarama client + wire protocol in the sc2w scenarios.  See checks/clustergen.py, design_notes/C11.md."""
 import clustergen
 
 
